@@ -3,6 +3,8 @@
    sumbool, sumor map to their OCaml counterparts; nat, positive, N, Z stay Coq inductive types. *)
 Require Import Coq.ZArith.ZArith.
 Require Import Trzsz.Model.Escape.
+Require Import Trzsz.Model.Proc.
+Require Import Trzsz.Gen.Skel_pipeline.
 Require Extraction.
 Require Import ExtrOcamlBasic.
 Extraction "model.ml"
@@ -31,4 +33,10 @@ Extraction "model.ml"
   Escape.table_of_json
   Escape.builtin_table
   Escape.esc_code
-  Escape.unesc_code.
+  Escape.unesc_code
+  Proc.net_counts
+  Proc.wf
+  Proc.wf_violations
+  Skel_pipeline.send_net
+  Skel_pipeline.recv_net
+  Skel_pipeline.hash_net.
